@@ -76,3 +76,11 @@ theorem C13_peer_tls (connTLS : Bool) :
 example : apply (some ⟨false, some [([75], [1])]⟩) false (some [([107], [[2]])]) = .ok (some [([107], [[2]]), ([107], [[1]])]) 1 := by decide
 
 end Creds
+
+namespace Creds
+
+/-- regenerated from httpgrpc/client.go: the peer call option is filled in before the reply's status is examined, in
+    `Invoke` and in `doHttpCall` alike — so it is set for calls the server answered with a non-OK status too -/
+theorem C13_peer_set_before_status : Gen.unaryPeerBeforeStatus = true ∧ Gen.streamPeerBeforeStatus = true := by decide
+
+end Creds
